@@ -32,11 +32,15 @@ func TestVerifFallbackDiscoveryGet(t *testing.T) {
 		for total := 1; total <= n && total <= 48; total++ {
 			next, prevLen := 0, n+1
 			min, max := n+1, -1
+			// one discovery object per group size, renumbered in place (same size, other member number)
+			ms := &vfMembership{&membership.Model{MemberNumber: total, TotalMembers: total}}
+			d := &vBucketDiscovery{vBucketNumber: n, membership: ms, vBucketDiscoveryMetric: &VBucketDiscoveryMetric{VBucketCount: n}}
+			d.Get()
 			for member := 1; member <= total; member++ {
 				cases++
-				d := &vBucketDiscovery{vBucketNumber: n, membership: &vfMembership{&membership.Model{MemberNumber: member, TotalMembers: total}}, vBucketDiscoveryMetric: &VBucketDiscoveryMetric{VBucketCount: n}}
+				ms.info = &membership.Model{MemberNumber: member, TotalMembers: total}
 				got := d.Get()
-				again := d.Get()
+				again := (&vBucketDiscovery{vBucketNumber: n, membership: &vfMembership{&membership.Model{MemberNumber: member, TotalMembers: total}}, vBucketDiscoveryMetric: &VBucketDiscoveryMetric{VBucketCount: n}}).Get()
 				fail := func(msg string) {
 					if bad++; bad <= 5 {
 						t.Errorf("VIOLATION C09: Get(N=%d, T=%d, member=%d) = %v: %s", n, total, member, got, msg)
